@@ -55,7 +55,16 @@ fn lex_ip_schemepart(source: &[char]) -> Option<usize> {
 }
 
 fn lex_login(source: &[char]) -> Option<usize> {
-    let hostport_start = if let Some(cred_end) = source.iter().position(|c| *c == '@') {
+    // Credentials are part of the authority: they end before the first '/' and cannot contain
+    // whitespace. An '@' anywhere later in the text has nothing to do with this URL.
+    let authority_len = source
+        .iter()
+        .position(|c| *c == '/' || c.is_whitespace())
+        .unwrap_or(source.len());
+
+    let hostport_start = if let Some(cred_end) =
+        source[..authority_len].iter().position(|c| *c == '@')
+    {
         if let Some(pass_beg) = source[0..cred_end].iter().position(|c| *c == ':') {
             if !is_uchar_plus_string(&source[pass_beg + 1..cred_end]) {
                 return None;
